@@ -7,6 +7,7 @@ From BCL Require Model.Proto.
 From BCL Require Import Model.Reflect.
 From BCL Require Model.Cli.
 From BCL Require Import Model.Verify.
+From BCL Require Import Model.Compile.
 Open Scope N_scope.
 
 Definition sp : N := 32.
@@ -346,6 +347,23 @@ Definition suite_verifysrc (c : bytes) : bytes :=
   let pr := parse_whole (bs "input") c in
   if pr_ok pr then (if verify (pr_prog pr) then bs "verified" else bs "REJECTED") else bs "parse-error".
 
+(* t2check: does the one-pass parser agree with grammar ; code generator on this source?
+   (an executable test of the statement of theorem T2, run on every generated program) *)
+Definition suite_t2check (c : bytes) : bytes :=
+  let '(ts, _) := lex [c] in
+  let ps := parse_tokens ts in
+  let accepted := negb (hadError ps) in
+  match ast_program ts with
+  | None => if accepted then bs "DISAGREE parser-accepts grammar-rejects" else bs "agree reject"
+  | Some p =>
+    let cs := compile_program p in
+    if hadError cs then (if accepted then bs "DISAGREE parser-accepts generator-error" else bs "agree reject(static)")
+    else if negb accepted then bs "DISAGREE parser-rejects grammar-accepts"
+    else if bytes_eqb (frev (code ps)) (frev (code cs)) &&
+            bytes_eqb (commas (map show_value (frev (consts ps)))) (commas (map show_value (frev (consts cs))))
+         then bs "agree accept" else bs "DISAGREE code"
+  end.
+
 Definition run_suite (name : bytes) (c : bytes) : bytes :=
   if bytes_eqb name (bs "dump") then suite_dump c
   else if bytes_eqb name (bs "load") then suite_load c
@@ -363,4 +381,5 @@ Definition run_suite (name : bytes) (c : bytes) : bytes :=
   else if bytes_eqb name (bs "cliargs") then suite_cliargs c
   else if bytes_eqb name (bs "verify") then suite_verify c
   else if bytes_eqb name (bs "verifysrc") then suite_verifysrc c
+  else if bytes_eqb name (bs "t2check") then suite_t2check c
   else bs "unknown-suite".
